@@ -90,6 +90,7 @@ def roundtrip(ctx, h, via):
     elif via == "file":
         path = os.path.join(tmpdir(), f"h{os.getpid()}.json")
         text = ctx.call("to_json(path)", h.to_json, path)
+        require(os.path.exists(path), "file_not_written", f"to_json({path!r}) wrote nothing")
         with open(path, "r", encoding="utf-8") as f:
             require(f.read() == text, "file_differs_from_text", "")
         back = ctx.call("load_json", load_json, path)
